@@ -2,7 +2,9 @@ package chain
 
 import (
 	"fmt"
+	"os"
 	"sort"
+	"strconv"
 	"testing"
 	"time"
 
@@ -222,4 +224,85 @@ func TestMutants(t *testing.T) {
 			seen[b] = true
 		}
 	}
+}
+
+// TestSoak: CHAIN_SOAK=<n> runs n random configurations for 12 epochs each with every policy flavour.
+func TestSoak(t *testing.T) {
+	n, _ := strconv.Atoi(os.Getenv("CHAIN_SOAK"))
+	if n == 0 {
+		t.Skip("set CHAIN_SOAK=<n>")
+	}
+	tot := newCounters()
+	fails := 0
+	for seed := int64(1000); seed < 1000+int64(n); seed++ {
+		cfg := RandomConfig(seed)
+		nv := 16 + int(seed*37%240)
+		if nv < int(cfg.Spec.SLOTS_PER_EPOCH) {
+			nv = int(cfg.Spec.SLOTS_PER_EPOCH)
+		}
+		c, err := NewChainOpts(cfg, GenesisOpts{Validators: nv, Balances: []string{"mixed", "uniform", "rich", "poor"}[seed%4], Seed: seed, Mode: []string{"kickstart", "eth1"}[seed%2]})
+		if err != nil {
+			t.Errorf("%s: genesis: %v", cfg.ID, err)
+			fails++
+			continue
+		}
+		c.Policy = PolicyByName([]string{"default", "eventful", "leak-recover", "sparse", "under", "over", "quiet"}[seed%7])
+		for i := 0; i < 12*int(cfg.Spec.SLOTS_PER_EPOCH); i++ {
+			if _, err := c.NextSlot(nil); err != nil {
+				t.Errorf("%s n=%d seed=%d: %v", cfg.ID, nv, seed, err)
+				fails++
+				break
+			}
+		}
+		tot.Add(&c.Counters)
+	}
+	t.Logf("failures=%d TOTAL %s", fails, tot.Summary())
+}
+
+// With FollowCodeSyncCommittee every block must go through the PLAIN common.StateTransition, live epochs
+// context and all.
+func TestFollowCodeMode(t *testing.T) {
+	c, err := NewChain(Fast(0, 1, 2, 3), 48, "mixed", 21)
+	if err != nil {
+		t.Fatal(err)
+	}
+	c.FollowCodeSyncCommittee = true
+	steps, err := c.Run(8 * 8)
+	if err != nil {
+		t.Fatal(err)
+	}
+	for _, s := range steps {
+		if s.EpcRepaired || s.PlainRejected {
+			t.Fatalf("slot %d: repair in follow-code mode", s.Slot)
+		}
+	}
+	t.Log(c.Counters.Summary())
+}
+
+// TestRepoDefectSyncCommitteeRotation documents (does not fail on) the /repo defect: driven through
+// common.ProcessSlots with beacon.StandardUpgradeableBeaconState, EpochsContext.RotateEpochs never rotates
+// the sync committees, because the wrapper does not implement common.SyncCommitteeBeaconState.
+func TestRepoDefectSyncCommitteeRotation(t *testing.T) {
+	c, err := NewChain(Fast(0, Never, Never, Never), 48, "uniform", 1)
+	if err != nil {
+		t.Fatal(err)
+	}
+	c.Policy = QuietPolicy()
+	var wrapped common.BeaconState = c.State
+	_, ok := wrapped.(common.SyncCommitteeBeaconState)
+	t.Logf("wrapper implements SyncCommitteeBeaconState: %v (inner state: %T)", ok, c.State.BeaconState)
+	present := false
+	for i := 0; i < 5*8; i++ {
+		s, err := c.NextSlot(&SlotOpts{Propose: true})
+		if err != nil {
+			t.Fatal(err)
+		}
+		if s.PlainRejected {
+			_, perr := s.ApplyPlain(s.Block)
+			_, rerr := s.Apply(s.Block)
+			t.Logf("slot %d (epoch %d): spec-valid block: plain StateTransition: %v; with epc sync committees reloaded from the state: %v", s.Slot, c.Spec.SlotToEpoch(s.Slot), perr, rerr)
+			present = true
+		}
+	}
+	t.Logf("defect present: %v; %s", present, c.Counters.Summary())
 }
